@@ -128,6 +128,9 @@ NONCANON = [
     ('Struct("a"/Optional(Const(b"AB")), "b"/GreedyBytes)', [b'ABxy']),
     ('Select(Struct("size"/Byte, Const(b"V1"), "x"/Byte), Struct("size"/Byte, Const(b"V2"), "y"/Int16ub))', [b'\x05V1\x07', b'\x06V2\x00\x09']),
     ('Struct("n"/Int8sb, "d"/Bytes(this.n))', [b'\x02ab', b'\x00', b'\xff']),
+    # anonymous constants and padding among the named members (Stable.anon_det): junk in the padding, non-minimal VarInt
+    ('Struct(Const(b"MZ"), "a"/Int16ul, Padding(2), "d"/VarInt, Const(7, Byte))', [b'MZ\x01\x00\xaa\xbb\x85\x00\x07', b'MZ\x00\x00\x00\x00\x01\x07', b'MQ\x00\x00\x00\x00\x01\x07']),
+    ('Struct(Const(b"TL"), "t"/Byte, "n"/Byte, "v"/Switch(this.t, {1: Bytes(this.n), 2: Array(this.n, Int16ub)}, default=Pass), Padding(1))', [b'TL\x01\x03abc\xee', b'TL\x02\x01\x00\x05\x00', b'TL\x09\x09\xff']),
     # tag-length-value (StableDep): payload chosen by the tag and sized by the length; non-minimal VarInts, non-zero padding
     ('Struct("t"/Byte, "n"/Byte, "v"/Switch(this.t, {1: Bytes(this.n), 2: Array(this.n, Int16ub)}, default=Pass), "f"/IfThenElse(this.t, VarInt, Pass))',
      [b'\x02\x02\x01\x02\x00\x03\xac\x82\x00', b'\x01\x03abc\x80\x00', b'\x00\x09', b'\x07\x00\x81\x80\x00', b'\x01\x05ab']),
@@ -192,8 +195,8 @@ def run(tier, seed):
              'canonical encodings, 3 mutations each, trailing garbage; thorough: every single-bit flip of short encodings); 15 gallery formats on '
              'their blobs. distinct = (shape, input, outcome)',
         fragment='rebuild_fragment: build after parse is stable for every construct of the closed sequential fragment with named members '
-                 '(Stable.sfrag); dep_rebuild: the same for the dependent fragment (sizes and Switch / IfThenElse choices read from earlier integer '
-                 'fields); integers, VarInt, Flag canonical forms (PrimFacts), props/C02.v',
+                 'or anonymous constants / padding (Stable.sfrag); dep_rebuild: the same for the dependent fragment (sizes and Switch / IfThenElse choices read from earlier integer '
+                 'fields); integers, VarInt, Flag canonical forms (PrimFacts); Float16 exhaustively (FloatFacts), props/C02.v',
         partial=['outside sfrag / dfrag (strings, enums, flags, adapters, bit-level, anonymous members) idempotence is decided by the oracle on '
                  'canonical and non-canonical inputs'],
         assumptions=['gallery format cap.py is excluded: its timestamp adapter is user code doing float arithmetic'])
